@@ -187,7 +187,7 @@ Section Compile.
        kw "INSERT INTO "; f (i_table b);
        when (nonempty (i_alias b)) [kw " AS "; WRaw (i_alias b)];
        match i_cols b with
-       | Some cols => WSeq [kw " ("; WSeq (sep_by (WSeq [kw ","; WPretty "" " "]) (map (@WRaw V) cols)); kw ")"]
+       | Some cols => WSeq [kw " ("; WSeq (sep_by (WSeq [kw ","; WPretty PwComma]) (map (@WRaw V) cols)); kw ")"]
        | None => WSeq []
        end] in
     if opt_nonnil (i_values b) && negb (is_nil (i_query b)) then WSeq (head ++ [WErr EkValuesQuery])
@@ -196,16 +196,16 @@ Section Compile.
         if negb (is_nil (i_query b)) then WSeq [kw " "; finner (i_query b)]
         else match i_values b with
              | Some rows =>
-                 WSeq [WPretty " " (String "010"%char ""); kw "VALUES ";
-                       WSeq (sep_by (WSeq [kw ","; WPretty "" (String "010"%char "       ")])
+                 WSeq [WPretty PwBreak; kw "VALUES ";
+                       WSeq (sep_by (WSeq [kw ","; WPretty PwRow])
                                (map (fun row => WSeq [kw "(";
-                                                      WSeq (sep_by (WSeq [kw ","; WPretty "" " "]) (map f row));
+                                                      WSeq (sep_by (WSeq [kw ","; WPretty PwComma]) (map f row));
                                                       kw ")"]) rows))]
              | None => when (i_default b) [kw " DEFAULT VALUES"]
              end in
       if negb (nonempty (i_caction b)) then WSeq (head ++ [body; c_returning f (i_returning b)])
       else
-        let conflict_head := [WPretty " " (String "010"%char ""); kw "ON CONFLICT"] in
+        let conflict_head := [WPretty PwBreak; kw "ON CONFLICT"] in
         if nonempty (i_cconstraint b) && nonnil (i_ctargets b)
         then WSeq (head ++ [body] ++ conflict_head ++ [WErr EkConflict])
         else
@@ -217,9 +217,9 @@ Section Compile.
                  kw " "; kw (i_caction b);
                  when (String.eqb (i_caction b) "DO UPDATE")
                    [when (nonnil (i_cset b))
-                      [WPretty " " (String "010"%char "    "); kw "SET "; c_setitems f (i_cset b)];
+                      [WPretty PwSet; kw "SET "; c_setitems f (i_cset b)];
                     when (nonnil (i_cwhere b))
-                      [WPretty " " (String "010"%char ""); kw "WHERE "; c_junction f (i_cwhere b) "AND"]];
+                      [WPretty PwBreak; kw "WHERE "; c_junction f (i_cwhere b) "AND"]];
                  c_returning f (i_returning b)]).
 
   Definition c_update_inner (f : exp -> W) (b : updb exp) : W :=
